@@ -29,10 +29,17 @@ for m in metas:
     first = 'MISSED, check strengthened (see meta.json)' if 'MISSED' in m.get('history', '') else 'caught'
     mark = '' if tgt in m.get('caught_by', []) else ' **(target check does not catch it)**'
     out.append(f"| {m['id']} | {tgt} | {m['needs_to_manifest']} | {', '.join(m.get('caught_by', [])) or 'NONE'}{mark} | {first} |")
-out += ["", f"All {len(metas)} are caught by the check of the property they target.  {n_first_missed} of them were MISSED by every check (or by the",
+uncaught = [m for m in metas if m.get('breaks_property') not in m.get('caught_by', [])]
+out += ["", f"{len(metas) - len(uncaught)} of the {len(metas)} are caught by the check of the property they target.  {n_first_missed} of them were MISSED by every check (or by the",
 "target check) when first tried and led to stronger generators or oracles; what was changed is recorded in each `meta.json`",
 "(`history`) and summarised in DESIGN.md 9.2.  A check other than the target's appears in `caught by` only where that",
-"property is violated too (e.g. a lost reference makes a valid predicted picture undecodable: C03 and C04).\n",
+"property is violated too (e.g. a lost reference makes a valid predicted picture undecodable: C03 and C04).\n"]
+if uncaught:
+    out += [f"**Not caught ({len(uncaught)}), left that way on purpose** (each lies outside the statement or quantifier of the property it was filed under):\n"]
+    for m in uncaught:
+        out.append(f"* {m['id']}: {m.get('not_covered', 'see meta.json')}")
+    out.append("")
+out += [
 "## 2. Planned mutants (DESIGN.md section 4) and reverts of every `fix:` commit\n",
 "`tools/mutants.py` applies each change to a scratch worktree (never to `/repo`), runs the repository's own tests and,",
 "if they still pass, the targeted check in its quick tier (`VERIF_REPO=<worktree>`).\n",
